@@ -449,6 +449,8 @@ def liquid_ok(body: list[Any]) -> bool:
         n = type(s).__name__
         if n in ("Text", "Raw", "LiquidTag"):
             return False
+        if n == "Comment" and s.kind == "block" and "%}" not in s.text:
+            continue  # written as comment ... endcomment lines
         if n == "Comment" and (s.kind != "inline" or "\n" in s.text):
             return False
     return True
@@ -500,6 +502,12 @@ def liquid_lines(body: list[Any], lay: Layout, depth: int) -> list[str]:
             L.append(ind + f"decrement {s.name}")
         elif n == "Cycle":
             L.append(ind + cycle_body(s, lay, True))
+        elif n == "Comment" and s.kind == "block":
+            # a block comment whose lines are indented like the statements around them
+            L.append(ind + "comment")
+            for line in s.text.split("\n"):
+                L.append((ind + "  " if lay.noisy_ws else "") + line.strip(" "))
+            L.append(ind + "endcomment")
         elif n == "Comment":
             L.append(ind + "#" + s.text)
         elif n == "With":
